@@ -207,6 +207,8 @@ class Index(object):
         stack = list(fn.body)
         while stack:
             n = stack.pop()
+            if isinstance(n, (ast.FunctionDef, ast.AsyncFunctionDef, ast.ClassDef)):
+                continue  # a nested definition is its own scope
             yield n
             for c in ast.iter_child_nodes(n):
                 if isinstance(c, (ast.FunctionDef, ast.AsyncFunctionDef, ast.ClassDef)):
